@@ -1019,6 +1019,50 @@ impl<'a> VisitMut for AnyAllEq<'a> {
     }
 }
 
+// ===================== R24 (opt-in `r24=<array length>`): `let [a, mid @ .., z] = E;` on a byte array =====================
+// Sub-slice binding patterns are outside Verus (and Kani): the statement becomes
+//   let __vx_arrK = E; let a = __vx_arrK[0]; let mid = vx_array_middle_<LEN>(&__vx_arrK); let z = __vx_arrK[LEN-1];
+// (`vx_array_middle_<LEN>` is a prelude function returning the LEN-2 inner bytes). Only this exact shape (one leading, one `@ ..`, one trailing identifier).
+struct SlicePatLet {
+    len: usize,
+    count: usize,
+}
+impl VisitMut for SlicePatLet {
+    fn visit_block_mut(&mut self, b: &mut syn::Block) {
+        syn::visit_mut::visit_block_mut(self, b);
+        let old = std::mem::take(&mut b.stmts);
+        for st in old {
+            let mut done = false;
+            if let syn::Stmt::Local(l) = &st {
+                if let (syn::Pat::Slice(ps), Some(init)) = (&l.pat, &l.init) {
+                    if ps.elems.len() == 3 && init.diverge.is_none() {
+                        let id = |p: &syn::Pat| -> Option<(syn::Ident, bool)> {
+                            if let syn::Pat::Ident(pi) = p {
+                                let rest = matches!(pi.subpat.as_ref().map(|x| &*x.1), Some(syn::Pat::Rest(_)));
+                                if pi.subpat.is_none() || rest { return Some((pi.ident.clone(), rest)); }
+                            }
+                            None
+                        };
+                        if let (Some((a, false)), Some((m, true)), Some((z, false))) = (id(&ps.elems[0]), id(&ps.elems[1]), id(&ps.elems[2])) {
+                            let arr = quote::format_ident!("__vx_arr{}", self.count);
+                            let f = quote::format_ident!("vx_array_middle_{}", self.len);
+                            let e = &init.expr;
+                            let last = self.len - 1;
+                            let new: syn::Block = syn::parse_quote!({ let #arr = #e; let #a = #arr[0]; let #m = #f(&#arr); let #z = #arr[#last]; });
+                            b.stmts.extend(new.stmts);
+                            self.count += 1;
+                            done = true;
+                        }
+                    }
+                }
+            }
+            if !done {
+                b.stmts.push(st);
+            }
+        }
+    }
+}
+
 struct TxFinder {
     found: Vec<syn::ExprClosure>,
 }
@@ -1720,6 +1764,16 @@ fn emit_fn(ctx: &mut Ctx, d: &FnDir, out: &mut String) {
         }
     }
 
+    // ---- R24 (opt-in)
+    if let Some(n) = d.opts.get("r24") {
+        let len: usize = n.parse().unwrap_or_else(|_| die("r24= needs the array length"));
+        let mut sp = SlicePatLet { len, count: 0 };
+        sp.visit_block_mut(&mut block);
+        if sp.count == 0 {
+            die(&format!("lost anchor: r24 finds no `let [a, mid @ .., z] = E;` in {}", d.path));
+        }
+        region_notes.push(format!("[R24] {} sub-slice binding pattern(s) rewritten to indexing + vx_array_middle_{}", sp.count, len));
+    }
     // ---- R23 (opt-in)
     if d.opts.contains_key("r23") {
         let mut n = 0usize;
